@@ -323,6 +323,11 @@ func caseLine(c *pkgCase) string {
 	if c.Kind == "sched" {
 		return "sched\t" + c.Sched
 	}
+	return pkgLine(c)
+}
+
+// pkgLine is the replayable form of any case: the files themselves.
+func pkgLine(c *pkgCase) string {
 	b, _ := json.Marshal(c.Files)
 	return "pkg\t" + vh.Hex(b)
 }
@@ -386,8 +391,13 @@ func main() {
 		fs := strings.SplitN(f.Replay, "\t", 2)
 		c := &pkgCase{ID: 0, Kind: "rich", Files: map[string]string{}}
 		if fs[0] == "sched" {
-			fmt.Fprintln(os.Stderr, "sched cases are replayed from the seed; rerun the check with the same VERIF_SEED")
+			// a model/implementation disagreement: the line is the model's input; the package
+			// itself is regenerated from the seed (rerun the check with the same VERIF_SEED)
+			o.Case(f.Replay, "rerun-with-seed", false)
 			return
+		}
+		if len(fs) == 2 && strings.HasPrefix(fs[1], " ") {
+			fs[1] = strings.TrimSpace(fs[1])
 		}
 		b, _ := vh.UnHex(fs[1])
 		json.Unmarshal(b, &c.Files)
@@ -447,7 +457,7 @@ func main() {
 			if c.Kind == "twopkg" {
 				key = "arbitrary-package-" + key
 			}
-			o.Oracle(key, caseLine(c), fmt.Sprintf("route=%s how=%s\n--- first:\n%s\n--- other:\n%s", route, how, b, res))
+			o.Oracle(key, pkgLine(c), fmt.Sprintf("route=%s how=%s\n--- first:\n%s\n--- other:\n%s", route, how, b, res))
 		}
 	}
 	tStart := time.Now()
